@@ -21,6 +21,20 @@
 
 static void line(const std::string &s) { fputs(s.c_str(), stdout); fputc('\n', stdout); fflush(stdout); }
 
+// async_write_line takes any number of streamable arguments and writes their concatenation: the same line is passed as one
+// string, or split into (text, number) where it ends in a number without leading zeros (as const char* and as std::string)
+template <class W>
+static void write_variadic(W &&w, const std::string &text, long n) {
+  size_t d = text.size();
+  while (d > 0 && isdigit((unsigned char)text[d - 1])) --d;
+  const bool splittable = d < text.size() && text.size() - d <= 9 && (text[d] != '0' || d + 1 == text.size());
+  if (!splittable || n % 3 == 0) { w(text); return; }
+  std::string head = text.substr(0, d);
+  int         num = atoi(text.c_str() + d);
+  if (n % 3 == 1) w(head.c_str(), num); else w(head, num);
+}
+static long nwr = 0;
+
 int main(int argc, char **argv) {
   ygm::comm   world(&argc, &argv);
   std::string mode = argv[1];
@@ -85,11 +99,11 @@ int main(int argc, char **argv) {
     if (mode == "multi") {
       ygm::io::multi_output<> mo(world, prefix, buflen, append);
       for (auto &[r, sub, text] : ops)
-        if (r == me) mo.async_write_line(sub, text);
+        if (r == me) write_variadic([&](auto &&...a) { mo.async_write_line(sub, a...); }, text, nwr++);
     } else {
       ygm::io::daily_output<> dout(world, prefix, buflen, append);
       for (auto &[r, sub, text] : ops)
-        if (r == me) dout.async_write_line(strtoull(sub.c_str(), 0, 10), text);
+        if (r == me) write_variadic([&](auto &&...a) { dout.async_write_line(strtoull(sub.c_str(), 0, 10), a...); }, text, nwr++);
     }
     if (mode == "multi" && me == 0) {
       // the object has been destroyed on this rank: the files are read at once, before anything else synchronises the ranks
